@@ -32,7 +32,7 @@ NOT_DECIDED = ["equality of coordinates within the format's precision (numerical
                "value ranges against field widths (overflow)", "gro time regex vs the %s spelling of floats"]
 ASSUMPTIONS = ["in_units_of(q, a, b) converts from a to b and is the only unit conversion used at the file boundary",
                "the format specifications fix: xtc/trr/gro/h5/lh5 nm; dcd/netcdf/rst7/ncrst/mdcrd/xyz/lammpstrj(real)/pdb/dtr/arc angstrom"]
-FLOORS = {"C01-R1": 50, "C01-R2": 60, "C01-R3": 20, "C01-R4": 25, "C01-R5": 25, "C01-R6": 8}
+FLOORS = {"C01-R1": 50, "C01-R2": 60, "C01-R3": 20, "C01-R4": 25, "C01-R5": 25, "C01-R6": 8, "C01-R7": 6}
 
 TRAJ = "mdtraj/core/trajectory.py"
 WRITABLE = [".h5", ".xtc", ".trr", ".dcd", ".nc", ".netcdf", ".ncdf", ".mdcrd", ".crd", ".xyz", ".xyz.gz", ".lammpstrj", ".gro",
@@ -80,6 +80,10 @@ def check(ctx):
     ctx.rule("C01-R3", "distance_unit of each file class equals the unit fixed by the format specification; unit strings written into HDF5 / NetCDF files agree with it")
     ctx.rule("C01-R4", "every constant column slice of a fixed-width reader coincides with one writer field (plus blanks); widths / decimals equal the published tables")
     ctx.rule("C01-R5", "token orders, the GRO box permutation, DCD/DTR cell field mapping and NetCDF/HDF5 variable names agree between writer and reader")
+    ctx.rule("C01-R7", "inverse pairs of the text formats: LAMMPS bounding-box offsets (writer adds what the reader subtracts); free-format time stamps are written with a round-trip conversion")
+    from .c17 import lammps_bounds
+    lammps_bounds(ctx, "C01-R7")
+    r7_time_text(ctx)
     ctx.rule("C01-R6", "in `for i in range(self.n_frames)` loops of savers every per-frame argument of f.write is subscripted by the loop variable")
     reg = F.registry(ctx)
     savers = _savers(ctx)
@@ -533,3 +537,34 @@ def _r5(ctx):
     rnames = {const(n.args[0]) for n in ast.walk(r) if isinstance(n, ast.Call) and call_name(n) == "get_field" and n.args}
     for v in ("coordinates", "time", "cell_lengths", "cell_angles"):
         ctx.decide(names is not None and v in names and v in rnames, "C01-R5", w, rel, cls, "node %s written and read" % v, "", "HDF5 node %s: written=%s read=%s" % (v, names and v in names, v in rnames))
+
+
+def r7_time_text(ctx):
+    """Free-format time stamps (GRO title line) are read back with float(); the writer must use a conversion that reproduces the value."""
+    GROF = "mdtraj/formats/gro.py"
+    fn = ctx.py.func(GROF, "GroTrajectoryFile._write_frame")
+    sites = []
+    for n in walk_no_nested(fn):
+        if isinstance(n, ast.BinOp) and isinstance(n.op, ast.Mod) and isinstance(n.left, ast.Constant) and isinstance(n.left.value, str) and "t=" in n.left.value:
+            specs = re.findall(r"%[-+ #0]*\d*(?:\.\d+)?[sdrfgeEG]", n.left.value)
+            sites.append((n, specs[0] if specs else None, src(n.right)))
+        if isinstance(n, ast.JoinedStr) and any(isinstance(v, ast.Constant) and "t=" in str(v.value) for v in n.values):
+            fv = [v for v in n.values if isinstance(v, ast.FormattedValue)]
+            spec = src(fv[0].format_spec) if fv and fv[0].format_spec is not None else ""
+            sites.append((n, "{%s}" % spec.strip("f'\""), src(fv[0].value) if fv else ""))
+        if isinstance(n, ast.Call) and isinstance(n.func, ast.Attribute) and n.func.attr == "format" and isinstance(n.func.value, ast.Constant) and "t=" in str(n.func.value.value):
+            specs = re.findall(r"\{[^}]*\}", n.func.value.value)
+            sites.append((n, specs[0] if specs else None, src(n.args[0]) if n.args else ""))
+    if not sites:
+        raise AnalysisError("GroTrajectoryFile._write_frame: the `t=` time stamp is not written by a recognised formatting construct")
+    for node, spec, arg in sites:
+        if spec in ("%s", "%r", "{}", "{!r}", "{!s}", "{:}"):
+            ctx.holds("C01-R7", node, GROF, "GroTrajectoryFile._write_frame", "time stamp written with %s (shortest text that reads back to the same value)" % spec, "argument `%s`" % arg)
+        elif spec is not None and re.search(r"\.(\d+)[fFeEgG]", spec) and int(re.search(r"\.(\d+)[fFeEgG]", spec).group(1)) < 9:
+            ctx.violated("C01-R7", node, GROF, "GroTrajectoryFile._write_frame", "time stamp written with a round-trip conversion",
+                         "the time stamp is written with `%s`: times that need more digits (sub-femtosecond spacing, large values) are rounded in the file and read back different" % spec)
+        else:
+            ctx.undecided("C01-R7", node, GROF, "GroTrajectoryFile._write_frame", "time stamp conversion", "unrecognised conversion `%s`" % spec)
+    rd = ctx.py.func(GROF, "GroTrajectoryFile._read_frame")
+    ok = any(isinstance(n, ast.Assign) and dotted(n.targets[0]) == "time" and isinstance(n.value, ast.Call) and call_name(n.value) == "float" for n in walk_no_nested(rd))
+    ctx.decide(ok, "C01-R7", rd, GROF, "GroTrajectoryFile._read_frame", "time read back with float()", "", "the time stamp is no longer parsed with float()")
